@@ -581,6 +581,7 @@ func run(r *core.Run) int {
 		"x DiscardCacheError x cache present/absent x 16 freshest-CRL shapes (5 of them malformed in different places); plus two live observations of a cached bundle (base / delta) crossing its next-update instant under continuous fetching; non-trivial = at least 2 fetches or a fault / expiry op; distinct by history + configuration"
 	r.Assume("expired = nextUpdate 2001, fresh = 2096; CRL numbers identify version and variant of every returned CRL")
 	calibrate()
+	r.Assume("live next-update observations: the wall clock does not step backwards during the three seconds they take")
 	r.Set("uri_after_non_uri_name_counts_as_advertised", eitherCounts)
 	// two bundles cross their next-update instant while the histories run
 	var live sync.WaitGroup
